@@ -14,7 +14,9 @@ RULE = ("scenario templates (1-2 applications, up to 3 outstanding requests of u
         "scenario (cap 200000 per scenario) + 20000 random. Oracle per schedule: online monitors (a wait resumes only "
         "when its entries are defined; a keep-response never lands on an allocated virtual qubit; exceptions) and at "
         "the end R-LINK: each response consumed exactly once by the oldest outstanding request of its key, pair k -> "
-        "slice k -> k-th virtual qubit, requests retired, nothing pending. Non-trivial = the schedule contains a "
+        "slice k -> k-th virtual qubit, requests retired, nothing pending."
+        ' Plus randomly generated scenarios (1-2 applications, 1-4 requests of random role / type / pair count / socket / remote, busy targets freed before the first wait, waits in random order, applications stopped by their host while others run, unnumbered link layers whose responses are equal field by field) explored exhaustively up to 150 (quick) / 600 (thorough) schedules each and randomly beyond; and a socket re-opened by the next application with a new purpose id. '
+        "Non-trivial = the schedule contains a "
         "delivery that arrives before its request or is deferred, or >= 2 requests outstanding at once; distinct = "
         "distinct (scenario, choice list).")
 ASSUMPTIONS = ["responses of one key (remote node, purpose, role) arrive in pair order and in request issue order; across keys and relative to instruction progress the order is arbitrary",
